@@ -397,7 +397,16 @@ func runSess(cfg *config) {
 					d.exec("SHOW DATABASES")
 				case x < 10:
 					tcount[d.cur]++
-					d.exec(fmt.Sprintf("CREATE TABLE t%d (a int, b varchar(255))", tcount[d.cur]))
+					// the same table names in every database, with a column list of the database's own: what one
+					// database knows about a table (definition, root page) must never answer for another
+					cols := "a int, b varchar(255)"
+					switch strings.ToLower(d.cur) {
+					case "beta":
+						cols = "b varchar(255), a int"
+					case "gamma":
+						cols = "a int, c boolean, b varchar(255)"
+					}
+					d.exec(fmt.Sprintf("CREATE TABLE t%d (%s)", tcount[d.cur], cols))
 				case x < 18:
 					nt := tcount[d.cur]
 					if nt == 0 {
@@ -431,7 +440,7 @@ func runSess(cfg *config) {
 						for k, m := 0, r.Range(1, 4); k < m; k++ {
 							vs = append(vs, fmt.Sprintf("(%d, 'r%d')", r.Intn(5), s))
 						}
-						d.exec("INSERT INTO " + t + " VALUES " + strings.Join(vs, ", "))
+						d.exec("INSERT INTO " + t + " (a, b) VALUES " + strings.Join(vs, ", "))
 					}
 				default:
 					if r.Chance(1, 3) {
